@@ -47,74 +47,45 @@ Lemma nested_branch_loses_value_refuted :
   exists prog sc, run_S 100 false prog sc = ([], OValue (VNum 1)) /\ run_I 1000 false prog sc = ([], OValue VUndef).
 Proof. exists w_n6, []. vm_compute. split; reflexivity. Qed.
 
-(* F12: for (x of it) { ev 5; <stack overflow> } : return() runs while an uncatchable error unwinds *)
+(* F12 (fixed in /repo by 22853aa; handleThrow drops the iterator stack for uncatchable payloads, and the model
+   follows): unwinding an uncatchable payload emits no event - for EVERY VM state, try stack and payload *)
 Definition w_f12 := sl [ForOf None (mkIter 7 3 None RetOk) (Block (sl [Ev 5; Unc PStackOverflow]))].
-Lemma uncatchable_runs_nothing_refuted :
-  exists prog sc, run_S 100 true prog sc = ([ENext 7; EEv 5], OUnc PStackOverflow) /\
-                  run_I 1000 true prog sc = ([ENext 7; EEv 5; EReturn 7], OUnc PStackOverflow).
-Proof. exists w_f12, []. vm_compute. split; reflexivity. Qed.
 
-(* what does hold on I: unwinding an uncatchable payload emits no event when the interrupt flag is set
-   (every attempted return() call is itself interrupted) or when no iterator is open — for EVERY VM state. *)
-
-Definition quiet (st : vmstate) : Prop := intr st = true \/ iters st = [].
-
-Lemma restore_quiet : forall st n, quiet st -> trace (restore_stacks st n) = trace st /\ quiet (restore_stacks st n).
-Proof.
-  intros st n [Hi|He].
-  - unfold restore_stacks. simpl. split.
-    + replace (flat_map (close_events (intr st)) (firstn (length (iters st) - n) (iters st))) with (@nil event).
-      { apply app_nil_r. }
-      rewrite Hi. induction (firstn (length (iters st) - n) (iters st)) as [|i r IH]; [reflexivity|].
-      simpl. rewrite <- IH. unfold close_events. destruct (i_open i); [destruct (it_ret (i_d i))|]; reflexivity.
-    + left. exact Hi.
-  - unfold restore_stacks. rewrite He. simpl. split.
-    + apply app_nil_r.
-    + right. reflexivity.
-Qed.
-
-Lemma handle_throw_unc_quiet : forall p fs st, quiet st ->
+Lemma uncatchable_runs_nothing : forall p fs st,
   match handle_throw None p st fs with
   | UncOut q st' => q = p /\ trace st' = trace st
   | Crashed => True
   | _ => False
   end.
 Proof.
-  induction fs as [|tf r IH]; intros st Q; simpl.
+  induction fs as [|tf r IH]; intros st; simpl.
   - split; reflexivity.
   - destruct (match f_catch tf, f_fin tf with None, None => negb (f_marker tf) | _, _ => false end || negb (f_marker tf)) eqn:E.
-    + apply IH. exact Q.
+    + apply IH.
     + destruct (f_marker tf) eqn:M.
-      * assert (Q' : quiet (set_stk st (keep (f_sp tf) (stk st)))) by (destruct Q; [left|right]; assumption).
-        destruct (restore_quiet _ (f_iterLen tf) Q') as [Ht _]. split; [reflexivity|]. exact Ht.
+      * split; reflexivity.
       * rewrite orb_true_r in E. discriminate.
 Qed.
 
-(* an interrupt raised at any instruction position, in any state: nothing of the script runs *)
-Lemma interrupt_runs_nothing : forall code st,
-  nth_error code (pc st) = Some (IUnc PInterrupt) ->
+(* an interrupt or a stack overflow raised at any instruction position, in any state: nothing of the script runs *)
+Lemma uncatchable_step_runs_nothing : forall code st p,
+  nth_error code (pc st) = Some (IUnc p) ->
   match vm_step code st with
-  | UncOut q st' => q = PInterrupt /\ trace st' = trace st
+  | UncOut q st' => q = p /\ trace st' = trace st
   | Crashed => True
   | _ => False
   end.
 Proof.
-  intros code st H. unfold vm_step. rewrite H.
-  apply (handle_throw_unc_quiet PInterrupt (trys (set_intr st true)) (set_intr st true)). left. reflexivity.
+  intros code st p H. unfold vm_step. rewrite H.
+  destruct p.
+  - apply (uncatchable_runs_nothing PInterrupt (trys (set_intr st true)) (set_intr st true)).
+  - apply (uncatchable_runs_nothing PStackOverflow (trys st) st).
 Qed.
 
-(* a stack overflow with no open iterator: nothing runs either *)
-Lemma stack_overflow_no_iter_runs_nothing : forall code st,
-  nth_error code (pc st) = Some (IUnc PStackOverflow) -> iters st = [] ->
-  match vm_step code st with
-  | UncOut q st' => q = PStackOverflow /\ trace st' = trace st
-  | Crashed => True
-  | _ => False
-  end.
-Proof.
-  intros code st H He. unfold vm_step. rewrite H.
-  apply (handle_throw_unc_quiet PStackOverflow (trys st) st). right. exact He.
-Qed.
+Lemma uncatchable_in_forof_regression :
+  run_I 1000 true w_f12 [] = run_S 100 true w_f12 [] /\
+  run_S 100 true w_f12 [] = ([ENext 7; EEv 5], OUnc PStackOverflow).
+Proof. vm_compute. split; reflexivity. Qed.
 
 (* the finally dispatch of the VM: leaveTry on a frame with a pending finally parks the continuation,
    and leaveFinally resumes exactly there with the frame popped — for every state *)
